@@ -11,8 +11,9 @@
 (*   Open   id oname level cur obs    the logger is constructed            *)
 (*   Conf   level iv keep rot    ApplyConfig / SetLevel                    *)
 (*   Log    kind pid s obs       one logging call, sequential              *)
-(*   Log    kind pid s em stamp g seq   one call of a concurrent burst, in *)
-(*                               the order the file itself gives           *)
+(*   Log    kind pid s em stamp raw g seq   one call of a concurrent burst *)
+(*                               in the order the file itself gives; raw = *)
+(*                               the whole entry as found in the file      *)
 (*   CycleA obs | del split      first half of a cycle (up to the gate)    *)
 (*   Banner line                 one banner line found between burst lines *)
 (*   CycleB cur obs              rest of the cycle                         *)
@@ -89,7 +90,8 @@ TraceLog ==
          stamp == IF seqd THEN High(delta, Min(20, Len(delta))) ELSE e.stamp
      IN  /\ e.kind \in Kinds
          /\ IF em
-            THEN \E k \in 1..2 : LogEmit(e.kind, e.pid, e.s, stamp, k)
+            THEN \E k \in 1..2 : /\ LogEmit(e.kind, e.pid, e.s, stamp, k)
+                                  /\ (Has(e, "raw") => e.raw = stamp \o Payload(e.kind, e.pid, e.s, k))
             ELSE LogDrop(e.kind) \/ LogSuppress(e.kind, e.pid, e.s)
          /\ (seqd => ObsOK(e.obs))
          \* calls of one goroutine appear in program order
